@@ -104,6 +104,7 @@ class Cluster:
         self.after_command = None  # hook(exe) called after execution (kill 'after')
         self.on_accept = None  # hook(job) at the instant a submission is accepted
         self.on_start = None  # hook(job) at the instant a job starts
+        self.cluster_name = None  # multi-cluster Slurm: --parsable prints "jobid;cluster"
         self.frozen = False
         self.sacct_calls = 0
 
@@ -198,7 +199,8 @@ class Cluster:
         job.dep_mode = "afterok"
         job.code = "PD"
         self._register(job)
-        return 0, (job.id + "\n") if parsable else f"Submitted batch job {job.id}\n", ""
+        suffix = f";{self.cluster_name}" if self.cluster_name else ""  # sbatch(1): "jobid[;cluster]"
+        return 0, (job.id + suffix + "\n") if parsable else f"Submitted batch job {job.id}\n", ""
 
     def _slurm_squeue(self, args, stdin):
         if "--noheader" not in args or not any(a.startswith("--format=") for a in args):
